@@ -1,11 +1,79 @@
 package main
 
 import (
+	"encoding/json"
+	"fmt"
+	"os"
+	"os/exec"
+	"path/filepath"
+	"strings"
+
 	"verif/engine/sym"
 )
 
-// replay turns a solver model into a native run of the harness (sequential harnesses) and
-// reports "confirmed", "diverged" or "model-only".
+// replay turns a solver model into a native run of the harness against the real build (go test
+// with the harness, the native intrinsic bodies and a generated test overlaid). It returns
+// "confirmed" (the predicted assertion fails / the predicted panic occurs natively), "diverged"
+// (the native run does not reproduce: encoder or stub bug, never a finding), or "model-only"
+// (concurrent harness: the schedule cannot be forced on the native build by this runner; the
+// trace is the model's, rendered access by access in the replay file).
 func replay(prop string, r *sym.CaseResult, v *sym.ViolationInfo, path string) string {
-	return "model-only"
+	if len(v.Sched) > 0 {
+		return "model-only"
+	}
+	work, err := os.MkdirTemp(filepath.Join(*verifDir, ".work"), "replay-")
+	if err != nil {
+		os.MkdirAll(filepath.Join(*verifDir, ".work"), 0o755)
+		work, err = os.MkdirTemp(filepath.Join(*verifDir, ".work"), "replay-")
+		if err != nil {
+			return "diverged"
+		}
+	}
+	defer os.RemoveAll(work)
+	var sb strings.Builder
+	sb.WriteString("//go:build verif && verifreplay\n\npackage shmipc\n\nimport \"testing\"\n\nfunc TestVerifReplay(t *testing.T) {\n")
+	sb.WriteString("\tvfInputVec = []uint64{")
+	for i, in := range v.Inputs {
+		if i > 0 {
+			sb.WriteString(", ")
+		}
+		fmt.Fprintf(&sb, "%d", in.Val)
+	}
+	sb.WriteString("}\n")
+	for _, s := range r.Shape {
+		kv := strings.SplitN(s, "=", 2)
+		fmt.Fprintf(&sb, "\tvfShapeMap[%q] = %s\n", kv[0], kv[1])
+	}
+	fmt.Fprintf(&sb, "\t%s()\n}\n", r.Harness)
+	testFile := filepath.Join(work, "zz_verif_replay_test.go")
+	os.WriteFile(testFile, []byte(sb.String()), 0o644)
+	ov := map[string]map[string]string{"Replace": {}}
+	hdir := filepath.Join(*verifDir, "harness")
+	ents, _ := os.ReadDir(hdir)
+	for _, en := range ents {
+		if !strings.HasSuffix(en.Name(), ".go") {
+			continue
+		}
+		ov["Replace"][filepath.Join(*repoDir, "zz_verif_"+strings.TrimPrefix(en.Name(), "zz_verif_"))] = filepath.Join(hdir, en.Name())
+	}
+	ov["Replace"][filepath.Join(*repoDir, "zz_verif_replay_test.go")] = testFile
+	ob, _ := json.Marshal(ov)
+	ovFile := filepath.Join(work, "overlay.json")
+	os.WriteFile(ovFile, ob, 0o644)
+	cmd := exec.Command("go", "test", "-tags", "verif verifreplay", "-vet=off", "-count=1", "-run", "^TestVerifReplay$", "-overlay", ovFile, ".")
+	cmd.Dir = *repoDir
+	cmd.Env = append(os.Environ(), "GOFLAGS=-mod=mod", "GOPROXY=off", "GOSUMDB=off", "GOTOOLCHAIN=local")
+	out, _ := cmd.CombinedOutput()
+	txt := string(out)
+	os.WriteFile(strings.TrimSuffix(path, ".json")+".native.txt", out, 0o644)
+	if strings.Contains(txt, "VFREPLAY:") {
+		return "diverged"
+	}
+	if strings.Contains(txt, "VFASSERT-FAIL: "+v.ID) {
+		return "confirmed"
+	}
+	if (strings.HasPrefix(v.ID, "nopanic:") || strings.HasPrefix(v.ID, "rawptr:")) && strings.Contains(txt, "panic:") && !strings.Contains(txt, "VFASSERT-FAIL") {
+		return "confirmed"
+	}
+	return "diverged"
 }
